@@ -164,6 +164,10 @@ impl RsdpV2Tag {
     /// Validation of the RSDPv2 extended checksum
     #[must_use]
     pub fn checksum_is_valid(&self) -> bool {
+        // The RSDP must lie inside the tag.
+        if self.length as usize > Self::BASE_SIZE - size_of::<TagHeader>() {
+            return false;
+        }
         let bytes = unsafe {
             slice::from_raw_parts(self as *const _ as *const u8, self.length as usize + 8)
         };
